@@ -183,6 +183,36 @@ func spuriousTimeoutIn(ps *PlanSpec, v *traceView) bool {
 	return false
 }
 
+// callIntervals: [start, end] (event numbers, end 0 = never ended) of every plugin call of action a. A call that was
+// scripted to outlive its action's timeout is abandoned by the engine; the scripted plugin logs its exit when ITS goroutine
+// notices the cancelled context, which on a loaded machine can be after the engine has moved on. For such a call the
+// interval ends at the engine's own record of the attempt (the action's next write) if that comes first. Whether an
+// abandoned call really ends is judged separately (C02.abandoned_call_ends).
+func (v *traceView) callIntervals(a int, overrun func(tag string, call int) bool) [][2]int64 {
+	var out [][2]int64
+	for _, en := range v.enters[a] {
+		var end int64
+		for _, ex := range v.exits[a] {
+			if ex.Call == en.Call && ex.N > en.N {
+				end = ex.N
+				break
+			}
+		}
+		if overrun != nil && overrun(en.Tag, en.Call) {
+			for _, w := range v.writes[a] {
+				if w.N > en.N {
+					if end == 0 || w.N < end {
+						end = w.N
+					}
+					break
+				}
+			}
+		}
+		out = append(out, [2]int64{en.N, end})
+	}
+	return out
+}
+
 type monitorSet struct {
 	r    *Result
 	spec *PlanSpec
@@ -204,6 +234,23 @@ func runMonitors(r *Result, ix *index, res *runResult, desc any) {
 		return
 	}
 
+	scripts := map[string][]Outcome{}
+	ps.eachAction(func(a *ActSpec, _ bool) { scripts[a.Tag] = a.Script })
+	overrunScripted := func(tag string, call int) bool {
+		sc := scripts[tag]
+		if len(sc) == 0 {
+			return false
+		}
+		if call >= len(sc) {
+			call = len(sc) - 1
+		}
+		return sc[call].Overrun
+	}
+	// every abandoned call must really end (its context must be cancelled): see startAndWait's grace period
+	for _, u := range res.Unended {
+		m.fail("C02.abandoned_call_ends", map[string]any{"overrunScripted": overrunScripted(u.Tag, u.Call)},
+			"a plugin call that the engine had abandoned at its timeout was still executing long after the plan ended (its context was never cancelled)", u)
+	}
 	disturbed := spuriousTimeoutIn(ps, v)
 	if disturbed {
 		r.count("runs not judged for plugin-level overlap (spurious timeout on a loaded machine)")
@@ -222,11 +269,11 @@ func runMonitors(r *Result, ix *index, res *runResult, desc any) {
 			}
 			var evs []ev
 			for pos, a := range acts {
-				for _, e := range v.enters[a] {
-					evs = append(evs, ev{e.N, true, pos, e.Call})
-				}
-				for _, e := range v.exits[a] {
-					evs = append(evs, ev{e.N, false, pos, e.Call})
+				for i, iv := range v.callIntervals(a, overrunScripted) {
+					evs = append(evs, ev{iv[0], true, pos, i})
+					if iv[1] != 0 {
+						evs = append(evs, ev{iv[1], false, pos, i})
+					}
 				}
 			}
 			sort.Slice(evs, func(i, j int) bool { return evs[i].n < evs[j].n })
@@ -267,12 +314,17 @@ func runMonitors(r *Result, ix *index, res *runResult, desc any) {
 			if o.Block != bi || o.Kind != "action" {
 				continue
 			}
-			for _, e := range append(append([]Event{}, v.enters[i]...), v.exits[i]...) {
-				if s.first == 0 || e.N < s.first {
-					s.first = e.N
-				}
-				if e.N > s.last {
-					s.last = e.N
+			for _, iv := range v.callIntervals(i, overrunScripted) {
+				for _, n := range iv {
+					if n == 0 {
+						continue
+					}
+					if s.first == 0 || n < s.first {
+						s.first = n
+					}
+					if n > s.last {
+						s.last = n
+					}
 				}
 			}
 		}
@@ -464,11 +516,11 @@ func runMonitors(r *Result, ix *index, res *runResult, desc any) {
 		var evs []ev
 		for _, q := range ix.seqsOf(bi) {
 			for _, a := range ix.actionsOf(q) {
-				for _, e := range v.enters[a] {
-					evs = append(evs, ev{e.N, 1, q})
-				}
-				for _, e := range v.exits[a] {
-					evs = append(evs, ev{e.N, -1, q})
+				for _, iv := range v.callIntervals(a, overrunScripted) {
+					evs = append(evs, ev{iv[0], 1, q})
+					if iv[1] != 0 {
+						evs = append(evs, ev{iv[1], -1, q})
+					}
 				}
 			}
 		}
